@@ -13,6 +13,7 @@ import (
 	"encoding/binary"
 	"fmt"
 	"math/rand/v2"
+	"os"
 	"slices"
 	"strconv"
 	"testing"
@@ -61,8 +62,24 @@ type policySpec struct {
 	bits   int // bloom bits per key (0 otherwise)
 }
 
+// fuseTenths is how many tenths of the cases use a binary fuse policy. Under
+// the race detector building one costs ~2 s (the library's pooled 100k-entry
+// builder is dropped/reallocated by race-mode sync.Pool), so the race part uses
+// fewer of them than the volume part.
+var fuseTenths = 4
+
 func randPolicy(rng *rand.Rand) policySpec {
-	switch rng.IntN(10) {
+	x := rng.IntN(6)
+	if rng.IntN(10) < fuseTenths {
+		x = 9
+	}
+	switch os.Getenv("VERIF_C26_FAMILY") { // debugging aid only
+	case "bloom":
+		x = x % 6
+	case "binaryfuse":
+		x = 9
+	}
+	switch x {
 	case 0, 1, 2, 3:
 		b := 1 + rng.IntN(20)
 		p := bloom.FilterPolicy(uint32(b))
@@ -170,6 +187,7 @@ func genKeys(rng *rand.Rand, n int, spec policySpec) (keys [][]byte, shape strin
 		}
 	case 6:
 		shape = "same-cache-line"
+		n = min(n, 600) // candidate search is n*nLines hash evaluations
 		// Bloom: every key hashes to the same cache line of the filter that
 		// will be built (nLines = ceil(n*bits/512)|1).
 		bits := spec.bits
@@ -194,6 +212,7 @@ func genKeys(rng *rand.Rand, n int, spec policySpec) (keys [][]byte, shape strin
 		}
 	default:
 		shape = "equal-low-hash-bits"
+		n = min(n, 300) // candidate search is n*512 hash evaluations
 		// keys whose bloom hash agrees on the low 9 bits (same bit position
 		// inside a line for the first probe)
 		target := rng.Uint32N(512)
@@ -361,14 +380,18 @@ func runFilterCase(r *vcommon.Report, i int, rng *rand.Rand) {
 	}
 }
 
-func TestVerifC26(t *testing.T) {
-	r := vcommon.NewReport("C26", "main")
+const filterRule = "each case = one filter built through TableFilterPolicy.NewWriter/AddKey/Finish for a generated key set (policy: bloom(1..20), adaptive_bloom with tight max sizes, " +
+	"binaryfuse(4,8,10,12,16); sizes 0..5000 plus hash-block boundaries 8192/16384 and cache-line multiples; shapes: random, sequential, one-bit-apart, lengths 0-7, " +
+	"long shared prefix, all keys in one bloom cache line, equal low hash bits; empty key, consecutive and scattered duplicates; writer reuse) and every added key probed " +
+	"with the decoder of the reported family; distinct = (policy, size, shape), sets of < 2 keys are trivial"
+
+func runFilterPart(t *testing.T, part string, n int) {
+	if part == "main" {
+		fuseTenths = 1
+	}
+	r := vcommon.NewReport("C26", part)
 	defer r.Finish(t)
-	r.Rule("each case = one filter built through TableFilterPolicy.NewWriter/AddKey/Finish for a generated key set (policy: bloom(1..20), adaptive_bloom with tight max sizes, " +
-		"binaryfuse(4,8,10,12,16); sizes 0..5000 plus hash-block boundaries 8192/16384 and cache-line multiples; shapes: random, sequential, one-bit-apart, lengths 0-7, " +
-		"long shared prefix, all keys in one bloom cache line, equal low hash bits; empty key, consecutive and scattered duplicates; writer reuse) and every added key probed " +
-		"with the decoder of the reported family; distinct = (policy, size, shape), sets of < 2 keys are trivial")
-	n := vcommon.Scale(2000, 100000)
+	r.Rule(filterRule)
 	r.Cases(n, func(i int, rng *rand.Rand) {
 		if msg, stack := sstmodel.Guard(func() { runFilterCase(r, i, rng) }); msg != "" {
 			r.Violate("panic", "panic while building/probing a filter: "+msg,
@@ -376,6 +399,15 @@ func TestVerifC26(t *testing.T) {
 		}
 	})
 }
+
+// TestVerifC26 runs under the race build (race detector + checkptr on the
+// unsafe cache-line / bit-packing accesses); the binary fuse builder's large
+// pooled buffers make it slow there, so the volume part below repeats the same
+// monitor under the invariants build.
+func TestVerifC26(t *testing.T) { runFilterPart(t, "main", vcommon.Scale(240, 12000)) }
+
+// TestVerifC26Bulk is the same monitor at volume (invariants build).
+func TestVerifC26Bulk(t *testing.T) { runFilterPart(t, "bulk", vcommon.Scale(2000, 100000)) }
 
 // ---- end to end through tables ----
 
@@ -482,7 +514,7 @@ func TestVerifC26Tables(t *testing.T) {
 	defer r.Finish(t)
 	r.Rule("each case = one random table with a filter policy (bloom / adaptive bloom / binary fuse, all table formats) read with AlwaysUseFilterBlock; " +
 		"SeekPrefixGE for (up to 600) existing keys and bare prefixes must return the first matching entry; distinct = (policy, format, entries), tables without a filter block are trivial")
-	n := vcommon.Scale(120, 6000)
+	n := vcommon.Scale(60, 3000)
 	r.Cases(n, func(i int, rng *rand.Rand) {
 		if msg, stack := sstmodel.Guard(func() { runTableCase(r, i, rng) }); msg != "" {
 			r.Violate("panic", "panic: "+msg, map[string]any{"case": i, "panic": msg, "stack": stack}, map[string]any{"message": msg})
